@@ -20,9 +20,9 @@ import (
 	"verifharness/tlc"
 )
 
-const SpecDir = "/verif/specs/cli"
-const TaskBin = "/verif/.work/bin/task"
-const DumpBin = "/verif/.work/bin/argvdump"
+var SpecDir = rep.Root + "/specs/cli"
+var TaskBin = rep.Root + "/.work/bin/task"
+var DumpBin = rep.Root + "/.work/bin/argvdump"
 
 // Alpha: index i (1-based) of the specification's alphabet is Alpha[i-1].
 var Alpha = []string{"a", " ", "'", "\"", "$", "\\", "*", "{", "}", "=", "#", "\n", "~", ";", "&", "|", "<", ">", "(", ")", "`"}
